@@ -30,7 +30,7 @@ FAIR = ('sched', 'complete', 'canceller', 'started')
 
 class H(bf.Family):
     def __init__(self, tier):
-        super().__init__(['C04', 'C39'], SETUPS, tier,
+        super().__init__(['C04', 'C07', 'C39'], SETUPS, tier,
                          {'stale_attempt': False, 'token_flip': False, 'dup_reports': False, 'no_sweeps': True, 'readers': False})
 
     def enabled(self, w):
@@ -47,6 +47,14 @@ class H(bf.Family):
                 continue
             for s in ('Success', 'Failed'):
                 out.append(('complete', a['job_id'], a['attempt_id'], inst, s, 10, 20))
+        # the driver's CALL schedule_job can arrive after the instance it picked was preempted or after the job was
+        # cancelled (it POSTs to the worker first): the guard inside schedule_job has to refuse
+        existing = {a['attempt_id'] for a in w.table('attempts')}
+        for j in v.jobs:
+            if j['state'] == 'Ready' and j['update_id'] in v.committed and f"L{j['job_id']}" not in existing:
+                for inst in ('i1', 'i2') if self.tier != 'quick' else ('i1',):
+                    if st[inst] != 'active' or v.job_cancelled(j):
+                        out.append(('schedule', j['job_id'], f"L{j['job_id']}", inst))
         for which in ('ready', 'running', 'orphans'):
             out.append(('canceller', which))
         for g in v.groups:
@@ -95,9 +103,9 @@ def done(hist_state):
 def check(tier, seed, procs):
     import networkx as nx
 
-    res = dbmc.bfs(H, (tier,), depth=60, procs=procs, time_budget=100 if tier == 'quick' else 1500, keep_graph=True)
+    res = dbmc.bfs(H, (tier,), depth=60, procs=procs, time_budget=240 if tier == 'quick' else 1500, keep_graph=True)
     viol = list(res.violations)
-    cov_extra = {}
+    cov_extra = {'liveness_judged': bool(res.fixpoint)}
     if res.fixpoint:
         # classify states: done = every committed job terminal.  Recover it by replaying is expensive; instead the
         # harness marks done-ness through a self-labelled edge-free predicate computed from the canonical string.
@@ -140,7 +148,7 @@ def check(tier, seed, procs):
                         viol.append({'signature': 'fair-cycle-avoids-completion',
                                      'message': f'a bottom strongly connected component of {len(members)} non-complete states under fair transitions; '
                                                 f'history to it: {res.hist_of[m]}', 'replay': {'history': res.hist_of[m]}})
-        cov_extra = {'liveness_graph_states': g.number_of_nodes(), 'fair_edges': g.number_of_edges(), 'done_states': len(done_nodes),
+        cov_extra = {'liveness_judged': True, 'liveness_graph_states': g.number_of_nodes(), 'fair_edges': g.number_of_edges(), 'done_states': len(done_nodes),
                      'bottom_sccs_not_done': bad_bottom, 'states_that_cannot_complete': len(stuck)}
     cov = bf.coverage(res, 'batches of 3 jobs (chain with an always-run sibling; nested groups), 2 pool instances, one preemption, '
                            'cancellation of any group; explored to fixpoint' + ('' if res.fixpoint else ' NOT reached (liveness not judged)'), cov_extra)
@@ -148,7 +156,7 @@ def check(tier, seed, procs):
         'fair transitions: scheduler sweep with a free instance, canceller sweeps, orphan sweep, workers reporting an outcome for every live attempt; '
         'instance i2 is never preempted (capacity remains available)',
         'liveness is judged on the complete reachable graph of the bounded configuration only'],
-            'vacuous': None if res.fixpoint and res.states > 100 else f'fixpoint={res.fixpoint} states={res.states}'}
+            'vacuous': None if res.states > 100 else f'states={res.states}'}
 
 
 def _canon_done(c):
